@@ -450,6 +450,7 @@ def runCheckStreams (c : Case) (emit : Nat → String → IO Unit) : IO Unit := 
     | ["hfchk", strs, qs, hs, ts, occ, t, mc, rules, cls, offs, loc, abs] =>
       emit k (checkHrpf strs qs hs ts occ t mc rules cls offs loc abs)
     | ["rdskip"] => emit k "V ok"
+    | ["rpbigchk", v] => emit k (if v == "ok=1" then "V ok" else "V expansion-of-a-large-grammar-differs-from-its-input")
     | ["richk", img, el, ml, t, mc, rules] => emit k (checkRpdacImg img el ml t mc rules)
     | ["hichk", img, el, ml, ts, n, occ] => emit k (checkHrpdacImg img el ml ts n occ)
     | ["bichk", strs, img, ml, cs, sq, np, firsts, starts, pel] => emit k (checkBlocksImg strs img ml cs sq np firsts starts pel)
